@@ -14,6 +14,8 @@
      LAPM n <nbrs> H   (nbrs = "n (len e_1 .. e_len) x n", H = n x n heat values)
                                                      -> "T n n .. | T 1 n .." (L and D) | "OOB"
      KLLEM n k <nbrs> W shift  (W = n x k local weights) -> table n x n
+     DMK1 n K0            -> table n x n  (first normalisation of the diffusion matrix)
+     DMM n K0 s           -> table n x n  (diffusion matrix from heat values K0 and sqrt values s, 1 x n)
    anything unparsable -> "?" *)
 open C12_model
 
@@ -181,6 +183,10 @@ let () =
            | "KLLEM" -> let n = take_dim toks in let k = take_dim toks in let nbl = take_nbrs toks in
              let w = take_table toks in let shift = take_qc toks in
              print_table (klle_M_q (nat_of_int n) (nat_of_int k) nbl w shift)
+           | "DMK1" -> let n = take_dim toks in let k0 = take_table toks in
+             print_table (diffusion_K1_q (nat_of_int n) k0)
+           | "DMM" -> let n = take_dim toks in let k0 = take_table toks in let sv = take_vec toks in
+             print_table (diffusion_q (nat_of_int n) k0 sv)
            | "PLB" -> let n = take_dim toks in let ql = take_perm toks in print_bool (perm_list_b (nat_of_int n) ql)
            | _ -> print_endline "?")
       with Bad | Not_found | Invalid_argument _ -> print_endline "?")
